@@ -14,7 +14,7 @@ def mk(rng, D, P, shp, cplx=False, positive=True):
 
 
 def constants(P, shp):
-    cs = [('int', 2), ('float', 1.5), ('complex', 1 + 2j), ('np.float64', numpy.float64(0.75)), ('np.int64', numpy.int64(3)), ('np.complex128', numpy.complex128(0.5 + 1j)), ('np.float32', numpy.float32(0.5))]
+    cs = [('int', 2), ('one', 1), ('one[float]', 1.0), ('zero', 0), ('minus one', -1), ('float', 1.5), ('complex', 1 + 2j), ('np.float64', numpy.float64(0.75)), ('np.int64', numpy.int64(3)), ('np.complex128', numpy.complex128(0.5 + 1j)), ('np.float32', numpy.float32(0.5))]
     if shp:
         n = int(numpy.prod(shp))
         cs += [('arr[same]', (numpy.arange(1., n + 1) / 2).reshape(shp)), ('arr[int]', numpy.arange(1, n + 1).reshape(shp)), ('arr[cplx]', (numpy.arange(1., n + 1) * (1 + 1j)).reshape(shp)),
@@ -48,16 +48,24 @@ def run(rng, tier):
                     for opn, op, orc in BIN:
                         for order in ('xc', 'cx'):
                             case = {'op': opn, 'order': order, 'const': cname, 'D': D, 'P': P, 'shape': list(shp), 'x_complex': xc, 'x': x.tolist() if not xc else None, 'c': repr(c)}
-                            try: r = op(U(x.copy()), c) if order == 'xc' else op(c, U(x.copy()))
+                            ux = U(x.copy())
+                            if cname == 'zero' and opn == '/' : continue                      # division by / of zero is outside the ring
+                            try: r = op(ux, c) if order == 'xc' else op(c, ux)
                             except Exception as e: yield case, 'raises %s: %s' % (type(e).__name__, str(e)[:120]); continue
                             if not isinstance(r, U): yield case, 'returns %s instead of a Taylor polynomial' % type(r).__name__; continue
                             want = orc(x, cd) if order == 'xc' else orc(cd, x)
-                            yield case, _cmp(r.data, want, True)
+                            f = _cmp(r.data, want, True)
+                            # a binary operator returns a NEW polynomial, also for the neutral element: a result that is (or shares memory with) the
+                            # operand is overwritten by the next in-place update of either
+                            if f is None and (r is ux or numpy.shares_memory(r.data, ux.data)): f = 'the result of the non-in-place operator %s the operand' % ('is' if r is ux else 'shares memory with')
+                            if f is None and not numpy.array_equal(ux.data, x): f = 'operand modified by a non-in-place operator'
+                            yield case, f
                     # in-place with a constant that does not enlarge the shape / change the kind
                     carr = numpy.asarray(c)
                     if numpy.iscomplexobj(carr) and not xc: continue
                     if carr.ndim > len(shp) or (carr.ndim and numpy.broadcast_shapes(carr.shape, shp) != tuple(shp)): continue
                     for opn, op, orc in IOPS:
+                        if cname == 'zero' and opn == '/=': continue
                         case = {'op': opn, 'const': cname, 'D': D, 'P': P, 'shape': list(shp), 'x_complex': xc, 'c': repr(c)}
                         u = U(x.copy())
                         try: r = op(u, c)
